@@ -19,6 +19,7 @@ def invs_for(A):
         {"hash": "h1", "amt": 0},                 # 3: amountless
         {"hash": "h2", "amt": A},                 # 4
         {"hash": "h1", "amt": A, "hint": True},   # 5: routed through ourselves
+        {"hash": "h1", "amt": A, "variant": 2, "expiry": 1},   # 6: expires one second after the run starts
     ]
 INVS = invs_for(10)
 
@@ -98,6 +99,7 @@ def rand_scenario(rng, family, policies=False):
         cfg["paytimeout"] = rng.choice([1, 2, 3])     # short payment timeout: a waitsendpay timeout, if requested, can fire
     if rng.random() < 0.3:
         cfg["xpay"] = True                            # the pay request is built by the other branch of pay()
+    short_lived = rng.random() < 0.12                 # the set carries an invoice that expires during the run
     if rng.random() < 0.08:
         # the largest MPP timeout the option accepts ("never time out"): the trace carries 1_000_000
         cfg["mpp"] = 1000000
@@ -155,9 +157,12 @@ def rand_scenario(rng, family, policies=False):
     elif family == "other":
         hs = rng.sample(p["other"], rng.randint(1, 3)) + rng.sample(p["good"], rng.randint(0, 2))
     rng.shuffle(hs)
+    if short_lived:
+        # every HTLC that carried invoice 1 carries invoice 6 instead (same hash, same amount, about to expire)
+        hs = [dict(h, inv=6) if h.get("inv") == 1 else h for h in hs]
     N = need_of(cfg, A)
     return {"cfg": cfg, "invs": invs_for(A), "htlcs": hs,
-            "probe": [H("h1", 1, N, N, cfg["h0"] + cfg["pdelta"] + 50, cfg["pdelta"] + 50)]}
+            "probe": [H("h1", 6 if short_lived else 1, N, N, cfg["h0"] + cfg["pdelta"] + 50, cfg["pdelta"] + 50)]}
 
 def rand_jobs(seed, n, families, crashes=(0, 1), wfaults=0, rfaults=0, probes=0, heights=False, freeze=False, start_run=1, steps=(25, 60), direct=0, policies=False, clockback=False):
     rng = random.Random(seed)
@@ -227,6 +232,7 @@ CLASS_INVS = [
     {"hash": "h1", "amt": 0, "form": "mixedcase"},      # 22
     {"hash": "h1", "amt": CLASS_A, "form": "noncanon"}, # 23 valid, but not the canonical text of its fields
     {"hash": "h1", "amt": 0, "form": "noncanon"},       # 24
+    {"hash": "h1", "amt": CLASS_A, "form": "nfield"},   # 25 payee named by an n field, signature with the other recovery id
 ]
 
 def class_cases():
@@ -584,12 +590,19 @@ def many_parts_jobs(start_run=1):
 # Whatever is stored for h1 must not settle it.
 def twin_key_jobs(start_run=1):
     jobs = []
+    for tw in ("h6", "h5"):      # h6: same text without zero padding; h5: differs from h1 in its last bit only
+        js = _twin_key_jobs(start_run + len(jobs), tw)
+        jobs += js
+    return jobs
+
+def _twin_key_jobs(start_run, twin):
+    jobs = []
     run = start_run
     cfg = dict(CFG_A)
     N = need_of(cfg, 10)
     h0, pd = cfg["h0"], cfg["pdelta"]
-    invs = [{"hash": "h1", "amt": 10}, {"hash": "h6", "amt": 10}]
-    hs = [H("h1", 1, N, N, h0 + pd + 30, pd + 30), H("h6", 2, N, N, h0 + pd + 31, pd + 31)]
+    invs = [{"hash": "h1", "amt": 10}, {"hash": twin, "amt": 10}]
+    hs = [H("h1", 1, N, N, h0 + pd + 30, pd + 30), H(twin, 2, N, N, h0 + pd + 31, pd + 31)]
     ds = lambda h, key: {"kind": "ds", "hash": h, "key": key}
     X = lambda sel, fault="none": {"a": "exec", "sel": sel, "fault": fault}
     D = lambda sel: {"a": "deliver", "sel": sel}
